@@ -12,6 +12,12 @@ certified result is determined by the raw data alone), on isotherm OBJECTS WITH 
 values / units asked before) against freshly built objects.  Every entry point is also called with the same numbers in other argument TYPES
 (ints, int arrays, lists, tuples, float32, 0-d arrays, mixed) and must give what it gives for float64; the documented refusals, the
 extrapolation warning (`warningoff`) and the `verbose` report (logged fictitious pressures) are checked on the real code.
+BRANCHES: hysteretic point isotherms (desorption rows stored after the adsorption rows, in decreasing pressure order) are called with
+`branch='des'` through every entry point (iast_point with default and user guess, iast_point_fraction, reverse_iast, iast_binary_svp / vle; fresh
+objects, objects with a history, every argument type) and each result is certified from the RAW desorption rows: equal spreading pressures, mole
+fractions, ideal mixing with the DESORPTION loadings (Model/IastPoint.lean `pointCertBranch` = selection by branch mark + `orient` + `pointCert`, op
+`pcertb` of Drv/Iast.lean; theorems Props/C13/Branch.lean, Props/C11/Branch.lean).  Model isotherms built / fitted on the desorption branch answer on
+that branch and refuse any other with ParameterError.
 """
 import math
 
@@ -102,16 +108,23 @@ def run(ck):
     ADS = ["N2", "CO2", "CH4", "C2H6"]
 
     def default_certified(isos, pp):
-        """the default-guess solution of the same mixture exists and satisfies the equal-spreading-pressure equations to 1e-9"""
-        try:
-            l0 = np.asarray(pgi.iast_point(isos, pp, warningoff=True), dtype=float)
-            x0 = l0 / np.sum(l0)
-            if not np.all(np.isfinite(x0)) or np.min(x0) <= 0:
-                return False
-            s0 = np.array([float(iso.spreading_pressure_at(p)) for iso, p in zip(isos, np.asarray(pp, dtype=float) / x0)])
-            return bool((np.max(s0) - np.min(s0)) <= 1e-9 * np.max(np.abs(s0)))
-        except Exception:  # noqa
-            return False
+        """a solution of the same mixture exists and satisfies the equal-spreading-pressure equations (to the certificate's own 1e-6): from the default
+        guess or — when the default guess itself is refused (clean tree, seed 3 at boost 3: DSLangmuir / Henry / Quadratic, default guess ->
+        CalculationError "mole fractions below 0", uniform guess -> the root, far guess -> a non-root with relative spread 0.8) — from the uniform guess.
+        (1e-9 was too strict when the true solution has a minor component: seed 6 at boost 3, Henry / DSLangmuir / Quadratic, root x = (0.626, 0.374, 1.0e-5)
+        reached with spread 1.7e-9 from the uniform guess, far guess -> a non-root x = (0.70, 0.25, 0.05) with spread 0.81.)"""
+        for g in (None, [1.0 / len(isos)] * len(isos)):
+            try:
+                l0 = np.asarray(pgi.iast_point(isos, pp, warningoff=True, adsorbed_mole_fraction_guess=g), dtype=float)
+                x0 = l0 / np.sum(l0)
+                if not np.all(np.isfinite(x0)) or np.min(x0) <= 0:
+                    continue
+                s0 = np.array([float(iso.spreading_pressure_at(p)) for iso, p in zip(isos, np.asarray(pp, dtype=float) / x0)])
+                if bool((np.max(s0) - np.min(s0)) <= 1e-6 * np.max(np.abs(s0))):
+                    return True
+            except Exception:  # noqa
+                continue
+        return False
 
     def certificate(isos, pp, loads, sig, detail, independent=True, lm_nonroot_excused=None):
         loads = np.asarray(loads, dtype=float)
@@ -271,39 +284,6 @@ def run(ck):
             except ParameterError as e:
                 ck.count(("svp-param", i), nontrivial=False, bucket="binary helper refused: " + str(e)[:40])
 
-    # -------------------------------------------------------------------- helpers on the desorption branch of hysteretic point isotherms
-    for i in range(max(4, N // 8)):
-        isos_h = []
-        for ads, (k_a, k_d, nm) in zip(ADS, [(rng.uniform(0.5, 3), rng.uniform(4, 9), rng.uniform(3, 8)) for _ in range(2)]):
-            pa_ = np.geomspace(1e-3, 50, 60)
-            pd_ = pa_[::-1][1:]
-            la_ = nm * k_a * pa_ / (1 + k_a * pa_)
-            ld_ = nm * k_d * pd_ / (1 + k_d * pd_)
-            isos_h.append(pg.PointIsotherm(pressure=np.concatenate([pa_, pd_]), loading=np.concatenate([la_, ld_]), branch=[0] * len(pa_) + [1] * len(pd_), material="pgv-synth",
-                                           adsorbate=ads, temperature=300.0, pressure_mode="absolute", pressure_unit="bar", loading_basis="molar", loading_unit="mmol",
-                                           material_basis="mass", material_unit="g", temperature_unit="K"))
-        yv, ptot = rng.uniform(0.2, 0.8), logu(rng, 0.1, 5)
-        yy = np.array([yv, 1 - yv])
-        for br in ("ads", "des"):
-            ck.count(("helpers-branch", br, i), bucket="helpers on branch " + br)
-            try:
-                ref = np.asarray(pgi.iast_point(isos_h, yy * ptot, branch=br, warningoff=True), dtype=float)
-                frac = np.asarray(pgi.iast_point_fraction(isos_h, yy, ptot, branch=br, warningoff=True), dtype=float)
-                svp = pgi.iast_binary_svp(isos_h, [float(yy[0]), float(yy[1])], [ptot], branch=br, warningoff=True)
-                vle = pgi.iast_binary_vle(isos_h, ptot, branch=br, npoints=3, warningoff=True)
-                ys = np.linspace(0.01, 0.99, 3)
-                xs = []
-                for yk in ys:
-                    r_ = np.asarray(pgi.iast_point(isos_h, np.array([yk, 1 - yk]) * ptot, branch=br, warningoff=True), dtype=float)
-                    xs.append(r_[0] / (r_[0] + r_[1]))
-            except (CalculationError, ParameterError):
-                continue
-            sel = (ref[0] / yy[0]) / (ref[1] / yy[1])
-            if not np.allclose(frac, ref, rtol=1e-9) or not np.allclose(svp["selectivity"], [sel], rtol=1e-9) or not np.allclose(vle["x"][1:-1], xs, rtol=1e-9):
-                ck.fail_case({"kind": "hysteretic point", "components": 2, "clause": "helper differs from the point calculation on the requested branch", "branch": br},
-                             {"fractions": yy.tolist(), "total_pressure": ptot, "point": ref.tolist(), "iast_point_fraction": frac.tolist(),
-                              "selectivity": [float(v) for v in svp["selectivity"]], "expected_selectivity": float(sel)})
-
     # -------------------------------------------------------------------- spurious roots: whatever is returned must have fractions in [0,1]
     # (models whose spreading pressure is also defined for negative pressures - Quadratic, Henry - as a minor component in any position,
     #  with user starting guesses far from the solution)
@@ -343,12 +323,20 @@ def run(ck):
             certificate(isos, pp, loads, sig, detail, independent=False, lm_nonroot_excused=lambda: default_certified(isos, pp))
 
     # -------------------------------------------------------------------- raw-data certificate for point isotherms (Model/IastPoint.lean)
-    lean_budget = [ck.n(10, 40)]
+    lean_budget = {"ads": ck.n(10, 40), "des": ck.n(8, 30)}
+    raw_failed = {}
 
-    def certificate_raw(datas, pp, loads, sig, detail):
-        """IAST equations of the piecewise-linear isotherms through the RAW adsorption data at the returned loadings; nothing is read from an
-        isotherm object (its caches cannot enter).  Float oracle = pgv.iastlib, tied to `pointCert` / `fractionsOf` / `spreadDiffs` /
-        `mixingResidual` of the Lean model on the first cases of a run."""
+    def fail_raw(sig, detail):
+        key = (sig.get("kind"), sig.get("entry"), sig.get("branch"), sig["clause"])
+        raw_failed[key] = raw_failed.get(key, 0) + 1
+        if raw_failed[key] <= 3:          # a few replay files per (kind, entry point, branch, clause) are enough
+            ck.fail_case(sig, detail)
+
+    def certificate_raw(datas, pp, loads, sig, detail, br="ads"):
+        """IAST equations of the piecewise-linear isotherms through the RAW data of the requested branch at the returned loadings — spreading
+        pressures AND the pure-component loadings of the ideal-mixing rule from the rows of THAT branch; nothing is read from an isotherm object
+        (its caches cannot enter).  Float oracle = pgv.iastlib, tied to `pointCert` / `pointCertBranch` / `fractionsOf` / `spreadDiffs` /
+        `mixingResidual` of the Lean model on the first cases of a run (per branch)."""
         loads = np.asarray(loads, dtype=float)
         pp = np.asarray(pp, dtype=float)
         tot = float(np.sum(loads))
@@ -360,67 +348,228 @@ def run(ck):
             ck.count(("raw-trace",), nontrivial=False, bucket="raw certificate skipped (trace component)")
             return None
         p0 = pp / x
-        sp = [iastlib.raw_spreading(*d["ads"], float(pz)) for d, pz in zip(datas, p0)]
-        n0 = [iastlib.raw_loading(*d["ads"], float(pz)) for d, pz in zip(datas, p0)]
+        sp = [iastlib.raw_spreading(*d[br], float(pz)) for d, pz in zip(datas, p0)]
+        n0 = [iastlib.raw_loading(*d[br], float(pz)) for d, pz in zip(datas, p0)]
         if any(v is None for v in sp) or any(v is None for v in n0):
             ck.count(("raw-range",), nontrivial=False, bucket="raw certificate skipped (fictitious pressure at the edge of the measured range)")
             return None
         sp, n0 = np.array(sp), np.array(n0)
         e = float((np.max(sp) - np.min(sp)) / max(np.max(np.abs(sp)), 1e-300))
-        note("raw data: equal spreading pressure", e)
+        note("raw data: equal spreading pressure" + (" (des)" if br == "des" else ""), e)
         bad = False
         if not (e <= 1e-6):
             bad = True
-            ck.fail_case({**sig, "clause": "spreading pressures of the given point isotherms (linear interpolation of the raw data) differ at the fictitious pressures"},
-                         {**detail, "x": x.tolist(), "fictitious_pressures": p0.tolist(), "spreading_pressures_from_raw_data": sp.tolist(), "relative_spread": e})
+            fail_raw({**sig, "clause": "spreading pressures of the given point isotherms (linear interpolation of the raw data) differ at the fictitious pressures", "branch": br},
+                         {**detail, "branch": br, "x": x.tolist(), "fictitious_pressures": p0.tolist(), "spreading_pressures_from_raw_data": sp.tolist(), "relative_spread": e})
         e = relerr(1 / tot, float(np.sum(x / n0)))
-        note("raw data: ideal mixing", e)
+        note("raw data: ideal mixing" + (" (des)" if br == "des" else ""), e)
         if not (e <= 1e-9):
             bad = True
-            ck.fail_case({**sig, "clause": "total loading violates the ideal-mixing rule for the given point isotherms (linear interpolation of the raw data)"},
-                         {**detail, "x": x.tolist(), "fictitious_pressures": p0.tolist(), "pure_loadings_from_raw_data": n0.tolist(), "total": tot, "expected": 1 / float(np.sum(x / n0))})
-        if not bad and lean_budget[0] > 0:
-            reqs = [iastlib.pcert_line(qlist, q, *d["ads"], float(pz)) for d, pz in zip(datas, p0)]
+            fail_raw({**sig, "clause": "total loading violates the ideal-mixing rule for the given point isotherms (linear interpolation of the raw data)", "branch": br},
+                         {**detail, "branch": br, "x": x.tolist(), "fictitious_pressures": p0.tolist(), "pure_loadings_from_raw_data": n0.tolist(), "total": tot, "expected": 1 / float(np.sum(x / n0))})
+        if not bad and lean_budget[br] > 0:
+            # hysteretic data: the Lean certificate starts from the rows AS STORED (adsorption rows, then desorption rows downwards) and the branch
+            reqs = [iastlib.pcert_line(qlist, q, *d["ads"], float(pz)) if d["des"] is None else iastlib.pcertb_line(np, qlist, q, d, br, float(pz)) for d, pz in zip(datas, p0)]
             if all(r is not None for r in reqs):
-                lean_budget[0] -= 1
+                lean_budget[br] -= 1
                 for r, a, b in zip(reqs, n0, sp):
                     lines.append(r)
-                    plan.append(("pcert", (float(a), float(b))))
+                    plan.append(("pcertb:" + br if r.startswith("pcertb") else "pcert", (float(a), float(b))))
                 lines.append(f"resid {qlist(loads)} {qlist(pp)} {qlist(n0)} {qlist(sp)}")
                 plan.append(("resid", (x, p0, sp, tot)))
         return x, n0, tot
 
-    # -------------------------------------------------------------------- isotherm OBJECTS with a query history
-    # The property quantifies over the given pure-component isotherms, not over what was asked from the objects before: the result on objects
-    # that were queried (other interpolation kinds, branches, fill values, units; an earlier IAST run) must be the result on freshly built
-    # objects with the same data, and must satisfy the certificate computed from the raw data.
-    # TODO(candidate genuine defects, reported): `branch='des'` is kept out of the certified calls - on the unchanged tree
-    # `PointIsotherm.spreading_pressure_at(branch='des')` folds over the desorption data in stored (decreasing) order and `iast_point` /
-    # `reverse_iast` take the pure loadings from `loading_at(p0)` on the default 'ads' branch whatever `branch` is.  The desorption branch
-    # appears in the HISTORY only.
+    def must_refuse(what, fn, want, detail):
+        ck.count(("refusal", what), nontrivial=False, bucket="documented refusal: " + what)
+        try:
+            r = fn()
+        except want:
+            return
+        except Exception as e:  # noqa
+            ck.fail_case({"kind": "refusal", "clause": "documented refusal raises another error kind", "case": what, "error": type(e).__name__}, {**detail, "error": repr(e)[:300], "expected": want.__name__})
+            return
+        ck.fail_case({"kind": "refusal", "clause": "input outside the documented domain accepted", "case": what}, {**detail, "returned": repr(r)[:300], "expected": want.__name__})
+
+    def outcome(fn):
+        try:
+            return "ok", fn()
+        except (CalculationError, ParameterError) as e:
+            return "refused", type(e).__name__
+        except Exception as e:  # noqa
+            return "error", type(e).__name__ + ": " + str(e)[:120]
+
     def dyadic_fractions(nc):
         ks = [1] * nc
         for _ in range(16 - nc):
             ks[rng.randrange(nc)] += 1
         return [k / 16 for k in ks]
 
+    def model_iso_on(name, par, ads, mbranch):
+        """a model isotherm that describes the branch `mbranch` (as a fit of that branch does)"""
+        model = get_isotherm_model(name, parameters={k: np.float64(v) for k, v in par.items()}, pressure_range=(0.0, 1e4), loading_range=(0.0, 1e3))
+        return pg.ModelIsotherm(model=model, branch=mbranch, material="pgv-synth", adsorbate=ads, temperature=300.0, pressure_mode="absolute", pressure_unit="bar",
+                                loading_basis="molar", loading_unit="mmol", material_basis="mass", material_unit="g", temperature_unit="K")
+
+    def data_detail(datas):
+        return [{"pressure": d["ads"][0].tolist(), "loading": d["ads"][1].tolist(),
+                 "desorption_stored_after_the_adsorption_rows": None if d["des"] is None else {"pressure": d["des"][0][::-1].tolist(), "loading": d["des"][1][::-1].tolist()}} for d in datas]
+
+    # -------------------------------------------------------------------- every entry point on BOTH branches of hysteretic point isotherms
+    # The pure-component isotherm of `branch='des'` is the piecewise-linear curve through the DESORPTION rows (stored after the adsorption rows, in
+    # decreasing pressure order): spreading pressures and the pure loadings of the ideal-mixing rule are taken from those rows
+    # (Props/C13/Branch.lean `stored_certificate_sound`; Props/C11/Branch.lean: the fold over the reversed stored rows).  Every returned result is
+    # certified from the raw rows of the requested branch.
+    for i in range(max(6, N // 5)):
+        nc = rng.choice([2, 2, 2, 3])
+        datas = [iastlib.point_data(rng, np, hysteresis=True) for _ in range(nc)]
+        isos_h = [iastlib.build_point(pg, np, d, a) for d, a in zip(datas, ADS)]
+        ptot = logu(rng, 0.5, 20)
+        y = np.array([rng.uniform(0.1, 1) for _ in range(nc)])
+        y = y / np.sum(y)
+        if nc == 2:
+            y = np.array([float(y[0]), 1 - float(y[0])])          # (the binary helpers want fractions that sum to one exactly)
+        pp = ptot * y
+        for br in ("ads", "des"):
+            sig = {"kind": "hysteretic point", "components": nc, "branch": br}
+            detail = {"branch": br, "models": [d["shape"] for d in datas], "params": [d["params"] for d in datas], "partial_pressures": pp.tolist(), "total_pressure": ptot,
+                      "gas_fractions": y.tolist(), "data": data_detail(datas)}
+            ck.count(("hysteretic", br, nc, i), bucket=f"hysteretic point isotherms:{br}:{nc} components", sample={"branch": br, "partial_pressures": pp.tolist()} if i % 20 == 0 else None)
+            o, ref = outcome(lambda: np.asarray(pgi.iast_point(isos_h, pp, branch=br, warningoff=True), dtype=float))
+            if o == "error":
+                ck.fail_case({**sig, "clause": "iast_point raises a non-pyGAPS error", "error": ref.split(":")[0]}, {**detail, "error": ref})
+                continue
+            if o != "ok":
+                ck.count(("hysteretic-refused", br, i), nontrivial=False, bucket="hysteretic point isotherms: refused on " + br)
+                continue
+            cert = certificate_raw(datas, pp, ref, {**sig, "entry": "iast_point"}, detail, br)
+            # user starting guess
+            if i % 2 == 0:
+                g = dyadic_fractions(nc)
+                o_g, r_g = outcome(lambda: np.asarray(pgi.iast_point(isos_h, pp, branch=br, warningoff=True, adsorbed_mole_fraction_guess=g), dtype=float))
+                if o_g == "error":
+                    ck.fail_case({**sig, "clause": "iast_point raises a non-pyGAPS error", "error": r_g.split(":")[0]}, {**detail, "guess": g, "error": r_g})
+                elif o_g == "ok":
+                    certificate_raw(datas, pp, r_g, {**sig, "entry": "iast_point(user guess)"}, {**detail, "guess": g}, br)
+            # fraction helper
+            o_f, fr = outcome(lambda: np.asarray(pgi.iast_point_fraction(isos_h, y, ptot, branch=br, warningoff=True), dtype=float))
+            if o_f != "ok" or not np.allclose(fr, ref, rtol=1e-9, atol=0):
+                ck.fail_case({**sig, "clause": "iast_point_fraction differs from the point calculation"}, {**detail, "got": [o_f, fr if o_f != "ok" else fr.tolist()], "expected": ref.tolist()})
+            # reverse problem: certified on the same branch, inverts the forward calculation
+            xs = dyadic_fractions(nc)
+            o_r, rv = outcome(lambda: pgi.reverse_iast(isos_h, xs, ptot, branch=br, warningoff=True))
+            if o_r == "error":
+                ck.fail_case({**sig, "clause": "reverse_iast raises a non-pyGAPS error", "error": rv.split(":")[0]}, {**detail, "adsorbed_fractions_wanted": xs, "error": rv})
+            elif o_r == "ok":
+                y2, l2 = np.asarray(rv[0], dtype=float), np.asarray(rv[1], dtype=float)
+                certificate_raw(datas, ptot * y2, l2, {**sig, "entry": "reverse_iast"}, {**detail, "adsorbed_fractions_wanted": xs, "gas_fractions_returned": y2.tolist()}, br)
+                if np.sum(l2) > 0 and not np.allclose(l2 / np.sum(l2), xs, rtol=1e-9, atol=0):
+                    ck.fail_case({**sig, "clause": "reverse_iast loadings do not have the requested adsorbed fractions"}, {**detail, "adsorbed_fractions_wanted": xs, "got": (l2 / np.sum(l2)).tolist()})
+            if cert is not None and np.min(cert[0]) > 1e-4:
+                o_b, back = outcome(lambda: pgi.reverse_iast(isos_h, cert[0], ptot, branch=br, warningoff=True))
+                if o_b == "ok":
+                    e = float(np.max(np.abs(np.asarray(back[0], dtype=float) - y) / y))
+                    note("reverse∘forward (hysteretic)", e)
+                    if not (e <= 1e-5) or not np.allclose(np.asarray(back[1], dtype=float), ref, rtol=1e-5):
+                        ck.fail_case({**sig, "clause": "reverse IAST does not invert the forward calculation"}, {**detail, "x": cert[0].tolist(), "gas_fractions_back": np.asarray(back[0]).tolist(), "expected": y.tolist()})
+            # binary helpers: what the point calculation gives on the same branch (each of those points certified)
+            if nc == 2 and (i % 2 == 0 or thorough):
+                pt = logu(rng, 2, 20)
+                prs = [pt, pt * 1.7] if thorough else [pt]
+                refs = [outcome(lambda: np.asarray(pgi.iast_point(isos_h, y * p_, branch=br, warningoff=True), dtype=float)) for p_ in prs]
+                o_s, svp = outcome(lambda: pgi.iast_binary_svp(isos_h, [float(y[0]), float(y[1])], prs, branch=br, warningoff=True))
+                if all(o_ == "ok" for o_, _ in refs):
+                    for (_, r_), p_ in zip(refs, prs):
+                        certificate_raw(datas, y * p_, r_, {**sig, "entry": "iast_binary_svp"}, {**detail, "total_pressure": p_, "partial_pressures": (y * p_).tolist()}, br)
+                    want = [(r_[0] / y[0]) / (r_[1] / y[1]) for _, r_ in refs]
+                    if o_s != "ok" or not np.allclose(np.asarray(svp["selectivity"], dtype=float), want, rtol=1e-9, atol=0):
+                        ck.fail_case({**sig, "clause": "iast_binary_svp differs from the point calculation"}, {**detail, "pressures": prs, "got": [o_s, svp if o_s != "ok" else [float(v) for v in svp["selectivity"]]], "expected": [float(v) for v in want]})
+                ys = np.linspace(0.01, 0.99, 3)
+                refs = [outcome(lambda: np.asarray(pgi.iast_point(isos_h, np.array([yk, 1 - yk]) * pt, branch=br, warningoff=True), dtype=float)) for yk in ys]
+                o_v, vle = outcome(lambda: pgi.iast_binary_vle(isos_h, pt, branch=br, npoints=3, warningoff=True))
+                if all(o_ == "ok" for o_, _ in refs):
+                    for (_, r_), yk in zip(refs, ys):
+                        certificate_raw(datas, np.array([yk, 1 - yk]) * pt, r_, {**sig, "entry": "iast_binary_vle"}, {**detail, "total_pressure": pt, "partial_pressures": [yk * pt, (1 - yk) * pt]}, br)
+                    xsw = [r_[0] / (r_[0] + r_[1]) for _, r_ in refs]
+                    if o_v != "ok" or not (np.allclose(vle["x"][1:-1], xsw, rtol=1e-9, atol=0) and np.allclose(vle["y"][1:-1], ys) and vle["x"][0] == 0 and vle["x"][-1] == 1):
+                        ck.fail_case({**sig, "clause": "iast_binary_vle differs from the point calculation"}, {**detail, "total_pressure": pt, "got": [o_v, vle if o_v != "ok" else [float(v) for v in vle["x"]]], "expected": [0.0] + [float(v) for v in xsw] + [1.0]})
+        # a partial pressure above the highest desorption pressure but inside the adsorption range: the desorption branch cannot answer
+        if i % 3 == 0:
+            j = rng.randrange(nc)
+            top_d, top_a = float(datas[j]["des"][0][-1]), float(datas[j]["ads"][0][-1])
+            pb = [logu(rng, 0.5, 5) for _ in range(nc)]
+            pb[j] = top_d + (top_a - top_d) * rng.uniform(0.2, 0.9)
+            g = dyadic_fractions(nc)
+            must_refuse("iast_point(branch='des'): partial pressure beyond the measured desorption range (user guess)",
+                        lambda: pgi.iast_point(isos_h, pb, branch="des", adsorbed_mole_fraction_guess=g, warningoff=True), CalculationError,
+                        {"partial_pressures": pb, "highest_desorption_pressure": top_d, "highest_adsorption_pressure": top_a})
+
+    # -------------------------------------------------------------------- model isotherms that describe a DESORPTION branch (fitted on it)
+    # A ModelIsotherm answers for its own branch only; any other branch is refused with ParameterError (documented) — by every entry point.
+    for i in range(ck.n(4, 16)):
+        nc = 2
+        datas = [iastlib.point_data(rng, np, hysteresis=True, npts=rng.randint(12, 24)) for _ in range(nc)]
+        pts = [iastlib.build_point(pg, np, d, a) for d, a in zip(datas, ADS)]
+        mname = rng.choice(["Langmuir", "DSLangmuir", "Toth"])
+        try:
+            fitted = [pg.ModelIsotherm.from_pointisotherm(pi, branch="des", model=mname, verbose=False) for pi in pts]
+        except Exception as e:  # noqa  (a fit that does not converge is the concern of C12)
+            ck.count(("desfit-nofit", i), nontrivial=False, bucket="model fitted on the desorption branch: no fit (" + type(e).__name__ + ")")
+            continue
+        ptot = logu(rng, 0.5, 20)
+        yv = rng.uniform(0.2, 0.8)
+        pp = ptot * np.array([yv, 1 - yv])
+        sig = {"kind": "model fitted on the desorption branch", "components": nc}
+        detail = {"model": mname, "fitted_parameters": [dict((k, float(v)) for k, v in m.model.params.items()) for m in fitted], "partial_pressures": pp.tolist(), "data": data_detail(datas)}
+        ck.count(("desfit", mname, i), bucket="model fitted on the desorption branch")
+        if any(m.branch != "des" for m in fitted):
+            ck.fail_case({**sig, "clause": "a model fitted on the desorption branch does not say so"}, {**detail, "branch_attributes": [m.branch for m in fitted]})
+            continue
+        o, r = outcome(lambda: np.asarray(pgi.iast_point(fitted, pp, branch="des", warningoff=True), dtype=float))
+        if o == "error":
+            ck.fail_case({**sig, "clause": "iast_point raises a non-pyGAPS error", "error": r.split(":")[0]}, {**detail, "error": r})
+        elif o == "ok":
+            certificate(fitted, pp, r, sig, detail, independent=True)
+            o2, r2 = outcome(lambda: np.asarray(pgi.iast_point_fraction(fitted, [yv, 1 - yv], ptot, branch="des", warningoff=True), dtype=float))
+            if o2 != "ok" or not np.allclose(r2, r, rtol=1e-9, atol=0):
+                ck.fail_case({**sig, "clause": "iast_point_fraction differs from the point calculation"}, {**detail, "got": [o2, r2 if o2 != "ok" else r2.tolist()], "expected": r.tolist()})
+        for what, fn in (("iast_point", lambda: pgi.iast_point(fitted, pp, warningoff=True)),
+                         ("iast_point_fraction", lambda: pgi.iast_point_fraction(fitted, [yv, 1 - yv], ptot, branch="ads", warningoff=True)),
+                         ("reverse_iast", lambda: pgi.reverse_iast(fitted, [0.5, 0.5], ptot, branch="ads", warningoff=True)),
+                         ("iast_binary_svp", lambda: pgi.iast_binary_svp(fitted, [yv, 1 - yv], [ptot], warningoff=True)),
+                         ("iast_binary_vle", lambda: pgi.iast_binary_vle(fitted, ptot, npoints=3, branch="ads", warningoff=True))):
+            must_refuse(what + ": adsorption branch asked from model isotherms of the desorption branch", fn, ParameterError, {"model": mname})
+
+    # -------------------------------------------------------------------- isotherm OBJECTS with a query history
+    # The property quantifies over the given pure-component isotherms, not over what was asked from the objects before: the result on objects
+    # that were queried (other interpolation kinds, branches, fill values, units; an earlier IAST run) must be the result on freshly built
+    # objects with the same data, and must satisfy the certificate computed from the raw data.
+    # Hysteretic point isotherms are called on either branch (the other branch appears in the history); the certificate is computed from the raw rows
+    # of the branch that was asked for.  (Both defects that kept `branch='des'` out of the certified calls are repaired in the library: 208858a — the
+    # fold ran over the desorption rows in stored, decreasing order; 4306ac7 — the pure loadings were read on the 'ads' branch whatever `branch` was.)
+    # Model isotherms are built on either branch and called on their own branch; another branch is refused with ParameterError, with or without history.
     for i in range(ck.n(36, 200)):
         nc = rng.choice([2, 2, 3])
         kind = rng.choice(["point-history", "point-history", "point-history", "model-history"])
         if kind == "point-history":
-            hyst = rng.random() < 0.4
+            hyst = rng.random() < 0.5
             datas = [iastlib.point_data(rng, np, hysteresis=hyst) for _ in range(nc)]
             names, plist = [d["shape"] for d in datas], [d["params"] for d in datas]
 
             def mk():
                 return [iastlib.build_point(pg, np, d, a) for d, a in zip(datas, ADS)]
+            br_call = "des" if hyst and rng.random() < 0.55 else "ads"
+            foreign_branch = False
         else:
             datas = None
             names = [rng.choice(IAST_OK) for _ in range(nc)]
             plist = [pars(n) for n in names]
+            mbranch = rng.choice(["ads", "ads", "des"])
+            foreign_branch = rng.random() < 0.15
+            br_call = mbranch if not foreign_branch else {"ads": "des", "des": "ads"}[mbranch]
 
             def mk():
-                return [model_iso(n, p_, a) for n, p_, a in zip(names, plist, ADS)]
+                return [model_iso_on(n, p_, a, mbranch) for n, p_, a in zip(names, plist, ADS)]
+        bkw = {"branch": br_call} if br_call != "ads" or rng.random() < 0.5 else {}          # 'ads' is also the default of every entry point
         isos_h, fresh = mk(), mk()
         ptot = logu(rng, 0.5, 20)
         y = np.array([rng.uniform(0.1, 1) for _ in range(nc)])
@@ -448,25 +597,35 @@ def run(ck):
         def call(isos):
             try:
                 if entry == "iast_point":
-                    return "ok", (np.asarray(pgi.iast_point(isos, pp, warningoff=True), dtype=float), pp)
+                    return "ok", (np.asarray(pgi.iast_point(isos, pp, warningoff=True, **bkw), dtype=float), pp)
                 if entry == "iast_point_fraction":
-                    return "ok", (np.asarray(pgi.iast_point_fraction(isos, y, ptot, warningoff=True), dtype=float), pp)
-                y2, l2 = pgi.reverse_iast(isos, xs, ptot, warningoff=True)
+                    return "ok", (np.asarray(pgi.iast_point_fraction(isos, y, ptot, warningoff=True, **bkw), dtype=float), pp)
+                y2, l2 = pgi.reverse_iast(isos, xs, ptot, warningoff=True, **bkw)
                 return "ok", (np.asarray(l2, dtype=float), ptot * np.asarray(y2, dtype=float))
             except (CalculationError, ParameterError) as e:
                 return "refused", type(e).__name__
             except Exception as e:  # noqa
                 return "error", type(e).__name__
 
-        sig = {"kind": kind, "components": nc, "entry": entry}
-        detail = {"models": names, "params": plist, "partial_pressures": pp.tolist(), "total_pressure": ptot, "gas_fractions": y.tolist(), "history_before_the_call": history}
+        sig = {"kind": kind, "components": nc, "entry": entry, "branch": br_call}
+        detail = {"models": names, "params": plist, "partial_pressures": pp.tolist(), "total_pressure": ptot, "gas_fractions": y.tolist(), "history_before_the_call": history,
+                  "branch": br_call, "keyword_arguments": bkw}
         if entry == "reverse_iast":
             detail["adsorbed_fractions_wanted"] = xs
         if datas is not None:
-            detail["data"] = [{"pressure": d["ads"][0].tolist(), "loading": d["ads"][1].tolist(),
-                               "desorption": None if d["des"] is None else {"pressure": d["des"][0].tolist(), "loading": d["des"][1].tolist()}} for d in datas]
-        ck.count((kind, entry, nc, tuple(h["op"] for h in history), i), bucket=f"{kind}:{entry}", sample={"models": names, "history": history} if i % 40 == 0 else None)
+            detail["data"] = data_detail(datas)
+        else:
+            detail["model_isotherms_built_on_branch"] = mbranch
+        ck.count((kind, entry, nc, br_call, tuple(h["op"] for h in history), i), bucket=f"{kind}:{entry}:{br_call}", sample={"models": names, "history": history, "branch": br_call} if i % 40 == 0 else None)
         (oh, rh), (of, rf) = call(isos_h), call(fresh)
+        if foreign_branch:
+            # documented refusal: a model isotherm answers for its own branch only
+            for which, o_, r_ in (("objects with history", oh, rh), ("fresh objects", of, rf)):
+                if (o_, r_) != ("refused", "ParameterError"):
+                    ck.fail_case({"kind": "refusal", "clause": "input outside the documented domain accepted" if o_ == "ok" else "documented refusal raises another error kind",
+                                  "case": entry + ": model isotherms asked for a branch other than their own"},
+                                 {**detail, "objects": which, "outcome": [o_, r_ if o_ != "ok" else r_[0].tolist()], "expected": "ParameterError"})
+            continue
         if oh != of:
             ck.fail_case({**sig, "clause": "outcome depends on what was asked from the isotherm objects before"},
                          {**detail, "with_history": [oh, rh if oh != "ok" else rh[0].tolist()], "fresh_objects": [of, rf if of != "ok" else rf[0].tolist()]})
@@ -485,7 +644,7 @@ def run(ck):
                 ck.fail_case({**sig, "clause": "result depends on what was asked from the isotherm objects before"},
                              {**detail, "with_history": lh.tolist(), "fresh_objects": lf.tolist(), "partial_pressures_with_history": pph.tolist(), "partial_pressures_fresh": ppf.tolist()})
         if datas is not None:
-            certificate_raw(datas, pph, lh, sig, detail)
+            certificate_raw(datas, pph, lh, sig, detail, br_call)
         else:
             certificate(fresh, pph, lh, sig, detail, independent=False)
         if entry == "reverse_iast":
@@ -494,14 +653,6 @@ def run(ck):
                 ck.fail_case({**sig, "clause": "reverse_iast loadings do not have the requested adsorbed fractions"}, {**detail, "got": xb.tolist()})
 
     # -------------------------------------------------------------------- argument TYPES: the same numbers as ints, int arrays, lists, tuples, float32, 0-d arrays, mixed
-    def outcome(fn):
-        try:
-            return "ok", fn()
-        except (CalculationError, ParameterError) as e:
-            return "refused", type(e).__name__
-        except Exception as e:  # noqa
-            return "error", type(e).__name__ + ": " + str(e)[:120]
-
     def same(a, b, scale):
         a, b = np.asarray(a, dtype=float), np.asarray(b, dtype=float)
         return a.shape == b.shape and bool(np.all(np.abs(a - b) <= 1e-12 * scale))
@@ -517,8 +668,12 @@ def run(ck):
         nc = rng.choice([2, 2, 2, 3, 4])
         kind = rng.choice(["model", "model", "model", "henry", "langmuir-eq", "langmuir-eq", "point"])
         datas = None
+        B, brt = {}, "ads"
         if kind == "point":
-            datas = [iastlib.point_data(rng, np) for _ in range(nc)]
+            hy = rng.random() < 0.5
+            datas = [iastlib.point_data(rng, np, hysteresis=hy) for _ in range(nc)]
+            if hy and rng.random() < 0.6:
+                B, brt = {"branch": "des"}, "des"          # every call of this round on the desorption branch of hysteretic point isotherms
             names, plist = [d["shape"] for d in datas], [d["params"] for d in datas]
             isos = [iastlib.build_point(pg, np, d, a) for d, a in zip(datas, ADS)]
         else:
@@ -531,20 +686,20 @@ def run(ck):
             isos = [model_iso(n, p_, a) for n, p_, a in zip(names, plist, ADS)]
         integer = rng.random() < 0.75
         vals = [float(rng.randint(1, 12)) for _ in range(nc)] if integer else [rng.randint(1, 48) / 4 for _ in range(nc)]
-        sig = {"kind": "argument-types:" + kind, "components": nc}
-        detail = {"models": names, "params": plist, "partial_pressures": vals}
+        sig = {"kind": "argument-types:" + kind, "components": nc, "branch": brt}
+        detail = {"models": names, "params": plist, "partial_pressures": vals, "branch": brt, "keyword_arguments": B}
         if datas is not None:
-            detail["data"] = [{"pressure": d["ads"][0].tolist(), "loading": d["ads"][1].tolist()} for d in datas]
+            detail["data"] = data_detail(datas)
         ppf = np.array(vals, dtype=np.float64)
-        o_ref, ref = outcome(lambda: np.asarray(pgi.iast_point(isos, ppf, warningoff=True), dtype=float))
-        ck.count(("types", kind, nc, tuple(vals), i), bucket=f"argument types:{kind}", sample={"models": names, "partial_pressures": vals} if i % 40 == 0 else None)
+        o_ref, ref = outcome(lambda: np.asarray(pgi.iast_point(isos, ppf, warningoff=True, **B), dtype=float))
+        ck.count(("types", kind, nc, tuple(vals), i), bucket=f"argument types:{kind}" + (":des" if brt == "des" else ""), sample={"models": names, "partial_pressures": vals} if i % 40 == 0 else None)
         if o_ref != "ok":
             ck.count(("types-refused", i), nontrivial=False, bucket="argument types: float64 reference refused")
             continue
         tot = float(np.sum(ref))
         # (a) iast_point: every container / dtype of the same numbers
         for vname, v in pick(iastlib.vector_variants(np, vals), 4, must=[rng.choice(["list[int]", "array[int64]", "tuple[int]", "array[int32]", "list[numpy.int64]", "mixed[int,float]"])]):
-            o, r = outcome(lambda: pgi.iast_point(isos, v, warningoff=True))
+            o, r = outcome(lambda: pgi.iast_point(isos, v, warningoff=True, **B))
             ck.count(("types-v", vname), nontrivial=False, bucket="iast_point(" + vname + ")")
             if o != "ok" or not same(r, ref, tot):
                 ck.fail_case({**sig, "clause": "iast_point depends on the type of the partial pressures (same numbers)", "argument": vname.split("[")[0]},
@@ -553,7 +708,7 @@ def run(ck):
                 # the result for non-float input satisfies the equations as well (not only "equal to the float64 one")
                 d2 = {**detail, "passed": iastlib.describe(v)}
                 if datas is not None:
-                    certificate_raw(datas, ppf, r, sig, d2)
+                    certificate_raw(datas, ppf, r, sig, d2, brt)
                 else:
                     certificate(isos, ppf, r, sig, d2, independent=False)
                 if kind == "henry":
@@ -568,7 +723,7 @@ def run(ck):
         # (b) verbose report: same result, and the logged fictitious pressures are p_i / x_i
         if i % 3 == 0:
             v = rng.choice([list(map(int, vals)) if integer else vals, ppf])
-            (o, r), recs = logged(lambda: outcome(lambda: pgi.iast_point(isos, v, warningoff=True, verbose=True)))
+            (o, r), recs = logged(lambda: outcome(lambda: pgi.iast_point(isos, v, warningoff=True, **B, verbose=True)))
             if o != "ok" or not same(r, ref, tot):
                 ck.fail_case({**sig, "clause": "iast_point(verbose=True) differs from the silent calculation"}, {**detail, "passed": iastlib.describe(v), "got": [o, r if o != "ok" else np.asarray(r).tolist()], "expected": ref.tolist()})
             else:
@@ -578,18 +733,18 @@ def run(ck):
                     ck.fail_case({**sig, "clause": "fictitious pressures reported by iast_point(verbose=True) are not p_i / x_i"}, {**detail, "passed": iastlib.describe(v), "reported": said, "expected": want.tolist()})
         # (c) user guess in any container
         g = dyadic_fractions(nc)
-        o_g, r_g = outcome(lambda: np.asarray(pgi.iast_point(isos, ppf, warningoff=True, adsorbed_mole_fraction_guess=np.array(g)), dtype=float))
+        o_g, r_g = outcome(lambda: np.asarray(pgi.iast_point(isos, ppf, warningoff=True, **B, adsorbed_mole_fraction_guess=np.array(g)), dtype=float))
         for vname, v in pick({k: w for k, w in iastlib.vector_variants(np, g).items() if "int" not in k}, 2):
-            o, r = outcome(lambda: pgi.iast_point(isos, ppf, warningoff=True, adsorbed_mole_fraction_guess=v))
+            o, r = outcome(lambda: pgi.iast_point(isos, ppf, warningoff=True, **B, adsorbed_mole_fraction_guess=v))
             if o != o_g or (o == "ok" and not same(r, r_g, tot)):
                 ck.fail_case({**sig, "clause": "iast_point depends on the type of the starting guess (same numbers)", "argument": vname.split("[")[0]},
                              {**detail, "guess": iastlib.describe(v), "got": [o, r if o != "ok" else np.asarray(r, dtype=float).tolist()], "expected_as_for_float64": [o_g, r_g if o_g != "ok" else r_g.tolist()]})
         # (d) fraction helper: fractions k/16 in any container, integer total pressure in any scalar type
         yv = dyadic_fractions(nc)
         ptot_i = rng.randint(1, 24)
-        o_f, r_f = outcome(lambda: np.asarray(pgi.iast_point(isos, np.array(yv) * float(ptot_i), warningoff=True), dtype=float))
+        o_f, r_f = outcome(lambda: np.asarray(pgi.iast_point(isos, np.array(yv) * float(ptot_i), warningoff=True, **B), dtype=float))
         for (yn, yvv), (pn, pv) in zip(pick({k: w for k, w in iastlib.vector_variants(np, yv).items() if "int" not in k}, 2), pick(iastlib.scalar_variants(np, ptot_i), 2, must=[rng.choice(["int", "numpy.int64", "0-d int array", "numpy.int32"])])):
-            o, r = outcome(lambda: pgi.iast_point_fraction(isos, yvv, pv, warningoff=True))
+            o, r = outcome(lambda: pgi.iast_point_fraction(isos, yvv, pv, warningoff=True, **B))
             ck.count(("types-f", yn, pn), nontrivial=False, bucket="iast_point_fraction(" + yn + ", " + pn + ")")
             if o != o_f or (o == "ok" and not same(r, r_f, float(np.sum(r_f)))):
                 ck.fail_case({**sig, "clause": "iast_point_fraction differs from the point calculation", "argument": yn.split("[")[0] + "," + pn.split(" ")[0]},
@@ -597,10 +752,10 @@ def run(ck):
         # (e) reverse problem: wanted fractions k/16 in any container, integer total pressure
         if i % 2 == 0:
             gg = dyadic_fractions(nc) if rng.random() < 0.5 else None
-            o_r, r_r = outcome(lambda: pgi.reverse_iast(isos, np.array(yv), float(ptot_i), warningoff=True, gas_mole_fraction_guess=None if gg is None else np.array(gg)))
+            o_r, r_r = outcome(lambda: pgi.reverse_iast(isos, np.array(yv), float(ptot_i), warningoff=True, **B, gas_mole_fraction_guess=None if gg is None else np.array(gg)))
             for (xn, xv), (pn, pv) in zip(pick({k: w for k, w in iastlib.vector_variants(np, yv).items() if "int" not in k}, 2), pick(iastlib.scalar_variants(np, ptot_i), 2, must=[rng.choice(["int", "numpy.int64", "0-d int array"])])):
                 gv = None if gg is None else rng.choice([list(gg), tuple(gg), np.array(gg), np.array(gg, dtype=np.float32)])
-                o, r = outcome(lambda: pgi.reverse_iast(isos, xv, pv, warningoff=True, gas_mole_fraction_guess=gv))
+                o, r = outcome(lambda: pgi.reverse_iast(isos, xv, pv, warningoff=True, **B, gas_mole_fraction_guess=gv))
                 ck.count(("types-r", xn, pn), nontrivial=False, bucket="reverse_iast(" + xn + ", " + pn + ")" + ("" if gg is None else " with guess"))
                 ok = o == o_r and (o != "ok" or (same(r[0], r_r[0], 1.0) and same(r[1], r_r[1], float(np.sum(r_r[1])))))
                 if not ok:
@@ -612,7 +767,7 @@ def run(ck):
                     # forward(reverse) on the integer-typed call: the returned gas fractions reproduce the wanted adsorbed fractions
                     y2 = np.asarray(r[0], dtype=float)
                     if np.min(y2) > 1e-4:
-                        o2, l2 = outcome(lambda: np.asarray(pgi.iast_point(isos, y2 * float(ptot_i), warningoff=True), dtype=float))
+                        o2, l2 = outcome(lambda: np.asarray(pgi.iast_point(isos, y2 * float(ptot_i), warningoff=True, **B), dtype=float))
                         if o2 == "ok" and not np.allclose(l2 / np.sum(l2), yv, rtol=1e-5, atol=1e-8):
                             ck.fail_case({**sig, "clause": "reverse IAST does not invert the forward calculation"}, {**detail, "adsorbed_fractions": iastlib.describe(xv), "total_pressure": iastlib.describe(pv), "gas_fractions": y2.tolist(), "forward_fractions": (l2 / np.sum(l2)).tolist()})
         # (f) binary helpers on integer pressures
@@ -620,22 +775,22 @@ def run(ck):
             k = rng.randint(1, 15)
             mf = [k / 16, 1 - k / 16]
             prs = sorted({rng.randint(1, 20) for _ in range(3)})
-            refs = [outcome(lambda: np.asarray(pgi.iast_point(isos, np.array(mf) * float(p_), warningoff=True), dtype=float)) for p_ in prs]
+            refs = [outcome(lambda: np.asarray(pgi.iast_point(isos, np.array(mf) * float(p_), warningoff=True, **B), dtype=float)) for p_ in prs]
             if all(o == "ok" for o, _ in refs):
                 want = [(r[0] / mf[0]) / (r[1] / mf[1]) for _, r in refs]
                 for (mn, mv), (pn, pv) in zip(pick({k_: w for k_, w in iastlib.vector_variants(np, mf).items() if "int" not in k_ and "float32" not in k_}, 2), pick(iastlib.vector_variants(np, prs), 2, must=[rng.choice(["list[int]", "array[int64]", "tuple[int]"])])):
-                    o, r = outcome(lambda: pgi.iast_binary_svp(isos, mv, pv, warningoff=True))
+                    o, r = outcome(lambda: pgi.iast_binary_svp(isos, mv, pv, warningoff=True, **B))
                     ck.count(("types-s", mn, pn), nontrivial=False, bucket="iast_binary_svp(" + mn + ", " + pn + ")")
                     if o != "ok" or not np.allclose(np.asarray(r["selectivity"], dtype=float), want, rtol=1e-9, atol=0) or not np.array_equal(np.asarray(r["pressure"], dtype=float), np.asarray(prs, dtype=float)):
                         ck.fail_case({**sig, "clause": "iast_binary_svp differs from the point calculation", "argument": mn.split("[")[0] + "," + pn.split("[")[0]},
                                      {**detail, "mole_fractions": iastlib.describe(mv), "pressures": iastlib.describe(pv), "got": [o, r if o != "ok" else [float(v_) for v_ in r["selectivity"]]], "expected": [float(v_) for v_ in want]})
             pt_i = rng.randint(1, 20)
             ys = np.linspace(0.01, 0.99, 3)
-            refs = [outcome(lambda: np.asarray(pgi.iast_point(isos, np.array([yk, 1 - yk]) * float(pt_i), warningoff=True), dtype=float)) for yk in ys]
+            refs = [outcome(lambda: np.asarray(pgi.iast_point(isos, np.array([yk, 1 - yk]) * float(pt_i), warningoff=True, **B), dtype=float)) for yk in ys]
             if all(o == "ok" for o, _ in refs):
                 xsw = [r[0] / (r[0] + r[1]) for _, r in refs]
                 for pn, pv in pick(iastlib.scalar_variants(np, pt_i), 2, must=[rng.choice(["int", "numpy.int64", "0-d int array"])]):
-                    o, r = outcome(lambda: pgi.iast_binary_vle(isos, pv, npoints=3, warningoff=True))
+                    o, r = outcome(lambda: pgi.iast_binary_vle(isos, pv, npoints=3, warningoff=True, **B))
                     if o != "ok" or not (np.allclose(r["x"][1:-1], xsw, rtol=1e-9, atol=0) and np.allclose(r["y"][1:-1], ys) and r["x"][0] == 0 and r["x"][-1] == 1 and r["y"][0] == 0 and r["y"][-1] == 1):
                         ck.fail_case({**sig, "clause": "iast_binary_vle differs from the point calculation", "argument": pn.split(" ")[0]},
                                      {**detail, "total_pressure": iastlib.describe(pv), "got": [o, r if o != "ok" else [float(v_) for v_ in r["x"]]], "expected": [0.0] + [float(v_) for v_ in xsw] + [1.0]})
@@ -687,17 +842,6 @@ def run(ck):
                                  {**detail, "adsorbed_fractions": xs_, "total_pressure": ptot, "fictitious_pressures": p0r.tolist(), "warnings_logged": told2, "warnings_due": due2})
 
     # -------------------------------------------------------------------- documented refusals (error kinds)
-    def must_refuse(what, fn, want, detail):
-        ck.count(("refusal", what), nontrivial=False, bucket="documented refusal: " + what)
-        try:
-            r = fn()
-        except want:
-            return
-        except Exception as e:  # noqa
-            ck.fail_case({"kind": "refusal", "clause": "documented refusal raises another error kind", "case": what, "error": type(e).__name__}, {**detail, "error": repr(e)[:300], "expected": want.__name__})
-            return
-        ck.fail_case({"kind": "refusal", "clause": "input outside the documented domain accepted", "case": what}, {**detail, "returned": repr(r)[:300], "expected": want.__name__})
-
     la, lb, lc = (model_iso("Langmuir", pars("Langmuir"), a) for a in ADS[:3])
     m_rel = get_isotherm_model("Langmuir", parameters={k: np.float64(v) for k, v in pars("Langmuir").items()}, pressure_range=(0.0, 1.0), loading_range=(0.0, 1e3))
     rel = pg.ModelIsotherm(model=m_rel, branch="ads", material="pgv-synth", adsorbate="CO2", temperature=300.0, pressure_mode="relative", loading_basis="molar", loading_unit="mmol",
@@ -768,7 +912,7 @@ def run(ck):
                 ok = relerr(float(parse_q(t[2])), tot) < 1e-9 and all(abs(a - b) <= 1e-9 * tot for a, b in zip(lm, loads)) and t[4] == "true"
             elif what == "pp":
                 ok = all(relerr(float(a), float(b)) < 1e-12 for a, b in zip(parse_qlist(t[1]), data))
-            elif what == "pcert":
+            elif what.startswith("pcert"):
                 # Lean: interpLin + exact fold over the raw data at ℚ (float logarithms as inputs)  vs  the float oracle of pgv.iastlib
                 ok = len(t) == 3 and relerr(float(parse_q(t[1])), data[0]) < 1e-11 and relerr(float(parse_q(t[2])), data[1]) < 1e-10
             elif what == "resid":
@@ -787,7 +931,11 @@ def run(ck):
     ck.cov["worst"] = {k: float(f"{v:.3g}") for k, v in sorted(worst.items())}
     ck.cov["rule"] = ("2-4 component mixtures of IAST-capable model isotherms (8 models, BET excluded: pole) and of 500-point point isotherms, total pressure 0.05-20 bar, random gas fractions, default and user guesses, "
                       "random permutations; Henry and equal-capacity Langmuir mixtures against closed forms; reverse problem; fraction / selectivity / VLE helpers; "
-                      "coarse (8-40 point, regular / irregular / with origin / hysteretic) point isotherms and model isotherms as OBJECTS WITH A QUERY HISTORY (1-4 earlier loading_at / pressure_at / "
+                      "hysteretic coarse point isotherms (desorption rows on the adsorption grid or on their own 4-30 point grid, stored downwards after the adsorption rows) x both branches x every entry point "
+                      "(default / user guess, fraction helper, reverse problem and its inversion, selectivity and VLE helpers), each result certified from the raw rows of the requested branch "
+                      "(Lean pointCertBranch at Q from the stored rows on the first cases per branch); partial pressures beyond the desorption range refused; model isotherms fitted on the desorption branch: "
+                      "certified on 'des', every entry point refuses 'ads' with ParameterError; "
+                      "coarse (8-40 point, regular / irregular / with origin / hysteretic) point isotherms and model isotherms (built on either branch) as OBJECTS WITH A QUERY HISTORY, called on either branch, (1-4 earlier loading_at / pressure_at / "
                       "spreading_pressure_at / accessor calls with 8 interpolation kinds, both branches, 4 fill values, other units; an earlier IAST run) against fresh objects and against the certificate "
                       "computed from the raw data (Lean pointCert at Q on the first cases); every entry point with integer-valued and quarter-valued numbers in 14 container / dtype variants "
                       "(ints, int arrays, lists, tuples, float32, 0-d arrays, mixed) against float64; verbose report; extrapolation warning; 19 documented refusals")
